@@ -29,7 +29,8 @@
    Unspecified(doc) (skipped and counted, both outcomes accepted) -- the documented omissions of
    pkg/md and the places where the TEXT of a tree means a different CommonMark document:
      tight      a list that is tight in CommonMark (no blank line between items and no item with two
-                blocks): pkg/md renders every list loose (documented omission)
+                blocks) and has a paragraph directly in an item -- the only place where tightness
+                shows: pkg/md renders every list loose (documented omission)
      attr       ATX heading with the {#id} extension
      setext     a raw = / === / -- at the start of a continuation line (CommonMark: setext heading)
      closer     an ATX heading without closing sequence whose last atom is a raw # run
@@ -79,6 +80,14 @@ TailTab ==
   @@ ("(<> \"t\")" :> [href |-> "", title |-> "t"]) @@ ("(\\(u)" :> [href |-> "(u", title |-> ""])
   @@ ("(u 'i\\'s \"q\"')" :> [href |-> "u", title |-> "i's &quot;q&quot;"])
   @@ ("(u \"t&NewLine;v\")" :> [href |-> "u", title |-> "t\nv"])
+  @@ [t \in {"(<)(>)", "(\\)\\()"} |-> [href |-> ")(", title |-> ""]]
+  @@ [t \in {"(<(()>)", "(\\(\\(\\))"} |-> [href |-> "(()", title |-> ""]]
+  @@ [t \in {"(<)>)", "(\\))"} |-> [href |-> ")", title |-> ""]] @@ ("(<(>)" :> [href |-> "(", title |-> ""])
+  @@ ("(())" :> [href |-> "()", title |-> ""]) @@ ("((()))" :> [href |-> "(())", title |-> ""])
+  @@ ("(<a (b)>)" :> [href |-> "a%20(b)", title |-> ""])
+  @@ [t \in {"(u \"(t)\")", "(u '(t)')", "(u (\\(t\\)))"} |-> [href |-> "u", title |-> "(t)"]]
+  @@ ("(u \"a)b\")" :> [href |-> "u", title |-> "a)b"]) @@ ("(u ')(')" :> [href |-> "u", title |-> ")("])
+  @@ ("(<)(> \"t\")" :> [href |-> ")(", title |-> "t"])
 \* look-alike tokens: spelling (raw or escaped, with tail) -> characters.  The token part:
 MkTab ==
   [s \in {"1.", "1\\."} |-> "1."] @@ [s \in {"01.", "01\\."} |-> "01."] @@ [s \in {"001)", "001\\)"} |-> "001)"]
@@ -216,7 +225,7 @@ BlockUnspec(b, inBareQuote) ==
     [] b.k \in {"them", "html"} -> ""
     [] b.k = "quote" -> BlocksUnspec(b.items[1], b.s = ">")
     [] b.k \in ListKinds ->
-         IF ~CMLoose(b) THEN "tight"
+         IF ~CMLoose(b) /\ \E i \in DOMAIN b.items : \E x \in DOMAIN b.items[i] : b.items[i][x].k = "para" THEN "tight"
          ELSE LET rs == {BlocksUnspec(b.items[i], FALSE) : i \in DOMAIN b.items} \ {""}
               IN IF rs = {} THEN "" ELSE CHOOSE r \in rs : TRUE
 BlocksUnspec(bs, inBareQuote) ==
